@@ -2,6 +2,7 @@ package verifsim
 
 import (
 	"fmt"
+	"strings"
 
 	"google.golang.org/protobuf/proto"
 	"google.golang.org/protobuf/reflect/protoreflect"
@@ -41,6 +42,10 @@ func c17Vars(r rng, nodeCount int) []VarSpec {
 		25: randTree(r, nodeCount, true),
 		26: randTree(r, nodeCount, true),
 		27: randTree(r, nodeCount, true),
+		// a ContainedResource wrapper (what Bundle.entry.resource and `contained` hold) is a FHIR message like
+		// any other: the variable is the wrapper, alone and as an item of a collection
+		28: {Kind: "cr", Res: 0},
+		29: {Kind: "coll", Items: []VarSpec{str("w"), {Kind: "cr", Res: 0}, node()}},
 	}
 }
 
@@ -104,7 +109,7 @@ func randTree(r rng, nodeCount int, withBad bool) VarSpec {
 	return t
 }
 
-var c17ValidVars = []int{0, 1, 2, 3, 4, 5, 6, 7, 8, 14, 15, 17, 18, 20, 21, 22, 23}
+var c17ValidVars = []int{0, 1, 2, 3, 4, 5, 6, 7, 8, 14, 15, 17, 18, 20, 21, 22, 23, 28, 29}
 var c17BadVars = []int{9, 10, 11, 12, 13, 16, 19, 24, 25, 26, 27}
 
 // the alphabets of the exhaustively enumerated option lists (length <= 4)
@@ -140,6 +145,83 @@ func nthList(n, k, maxLen int) ([]int, bool) {
 		count *= k
 	}
 	return nil, false
+}
+
+// programs with a hole (@) for the position differential (template posdiff)
+var c17FnHoles = []string{
+	"Patient.name.where(@.family.exists() or (@.given.exists() and @.use.exists().not()))",
+	"Patient.name.select(given.subsetOf(@.given))",
+	"@",
+	"Patient.name.select(@)",
+	"Patient.name.where(@.given.exists())",
+	"Patient.name.where(true and @.given.exists())",
+	"Patient.name.select(family & @.family)",
+	"Patient.name.given[@.count() - 1]",
+	"Patient.name[@.count() - 1]",
+	"Patient.name.all(@ = @)",
+	"Patient.name.exists(@ is HumanName)",
+	"Patient.name.select(@ as HumanName)",
+	"Patient.name.select(iif(@.exists(), @.given, {}))",
+	"Patient.name.select(iif(false, 1, @.family))",
+	"Patient.name.where(use = @.use or @.family.exists())",
+	"Patient.name.select(given.select(@ & 'x'))",
+	"Patient.name.where(given.where(@.length() > 2).exists())",
+	"-@.count()",
+	"Patient.name.exists(@.given.count() > 0 implies @.family.exists())",
+	"Patient.name.select(1 + @.given.count() * 2 - 1)",
+	"Patient.name.select(7 div @.given.count())",
+	"Patient.name.select(7 mod @.given.count())",
+	"Patient.name.select(family > @.family)",
+	"Patient.name.select(family != @.family)",
+	"Patient.name.select(family ~ @.family)",
+	"Patient.name.select(family !~ @.family)",
+	"Patient.name.select(family.exists() xor @.given.exists())",
+	"Patient.name.select(1 / @.given.count())",
+	"Patient.name.select(given.first() <= @.given.last())",
+	"Patient.name.select(given).where(@ = @)",
+	"Patient.name.select(@).select(@).given",
+	"Patient.name.where(@.period.where(@.start.exists()).exists())",
+	"Patient.name.iif(@.exists(), @.count(), 0)",
+	"Patient.name.select(@.given.intersect(given))",
+	"Patient.name.select(given.exclude(@.given).count())",
+	"Patient.telecom.select(@.value) = Patient.telecom.value",
+	"Patient.name.select(family.startsWith(@.family))",
+	"Patient.name.select(family.indexOf(@.family))",
+	"Patient.name.select(family.replace(@.family, 'r'))",
+	"Patient.name.given.skip(@.count() - 1)",
+	"Patient.name.take(@.count())",
+	"Patient.name.select(@.family.substring(0, @.given.count()))",
+	"Patient.name.select(iif(@.family.exists(), @.family.length() + @.given.count(), -1))",
+}
+
+var c17VarHoles = []string{
+	"Patient.name.where(@.exists() and (family.exists() or (@ = @).not()))",
+	"Patient.name.select(given.intersect(@.toString()))",
+	"@",
+	"Patient.name.select(@)",
+	"Patient.name.where(family = @ or true)",
+	"Patient.name.select(family & @.toString())",
+	"Patient.name.select(iif(given.exists(), @, {}))",
+	"Patient.name.given.where($this != @.toString())",
+	"Patient.name.given.select(@.toString() & $this)",
+	"Patient.name.all(@.exists())",
+	"Patient.name.where(given.where(@.toString().length() > 2).exists())",
+	"iif(@.exists(), @, 'none')",
+	"Patient.name.exists(@ is String)",
+	"Patient.name.given[@.toString().length() - 5]",
+	"Patient.name.select(given.select(family.select(@)))",
+	"Patient.name.where(given.exists(@ = @))",
+	"Patient.name.select(@ = @ and @ != @)",
+	"Patient.name.select(@ ~ @)",
+	"Patient.name.select(iif(false, 1, iif(true, @)))",
+	"-(@.toString().length())",
+	"Patient.name.select(@.toString() > 'b')",
+	"Patient.name.select(given.exclude(@.toString()))",
+	"Patient.name.select(family.startsWith(@.toString()))",
+	"Patient.name.select(family.replace('a', @.toString()))",
+	"Patient.name.take(@.toString().length() - 4)",
+	"Patient.name.select(iif(@ is Integer, @, @.toString().length()))",
+	"Patient.name.select(@.toString().substring(1, 2))",
 }
 
 const c17ListsPerRun = 20
@@ -382,6 +464,24 @@ func genC17(seed uint64, run int, tier string) *Case {
 				op.COpts = []COpt{{Kind: "fn", Name: "dt", Fn: "declared"}, {Kind: "fn", Name: "mt", Fn: kind + ":" + t1}}
 			}
 			op.Opts = randOpts(nil)
+		case x < 19 && r.p(0.3):
+			// position differential: a user function that answers its input stands where `$this` could stand,
+			// a variable bound to a System value where its literal could stand - in operands of every
+			// operator, inside indexers, in criteria nested in criteria. The two programs must agree.
+			op.Tmpl = "posdiff"
+			if r.p(0.6) {
+				h := pick(r, c17FnHoles)
+				op.Src, op.Arg = strings.ReplaceAll(h, "@", "pf()"), strings.ReplaceAll(h, "@", "$this")
+				op.COpts = fn("pf", "obs0")
+				op.Opts = randOpts(nil)
+			} else {
+				h := pick(r, c17VarHoles)
+				vi := pick(r, []int{0, 1, 20})
+				lit := map[int]string{0: "'alpha'", 1: "42", 20: "'beta'"}[vi]
+				op.Name = pick(r, []string{"a", "b", "pv"})
+				op.Src, op.Arg = strings.ReplaceAll(h, "@", "%"+op.Name), strings.ReplaceAll(h, "@", lit)
+				op.Opts = randOpts(map[string]int{op.Name: vi})
+			}
 		case x < 19 && r.p(0.25):
 			op.Tmpl, op.Src = "call-nested", "Patient.name.os(rs())"
 			op.COpts = []COpt{{Kind: "fn", Name: "os", Fn: "obsS"}, {Kind: "fn", Name: "rs", Fn: "obsRetS"}}
